@@ -657,7 +657,8 @@ func (b Bounds) Describe() string {
 // (one option at a time on top of the defaults):
 //
 //	default; ignore=[V1]; ignore=[V2]*; explicit=[V1]; explicit=[V2]*; dev-deps off with the first manifest
-//	requirement marked dev; dev-deps off with the second one marked dev**; max depth 1; max depth 2;
+//	requirement marked dev; dev-deps off with the second one marked dev**; the same two with dev-deps ON
+//	(requirement i is a dev/test dependency and is analysed like any other); max depth 1; max depth 2;
 //	min severity 5.0 with V1 low (1.8) and V2 high (9.8); the same with V1 high and V2 low*; no-introduce.
 //	(* only with two vulnerability records, ** only with two manifest requirements)
 func OptionVariants(c *Case) []Case {
@@ -682,6 +683,11 @@ func OptionVariants(c *Case) []Case {
 	for i := range c.Manifest {
 		i := i
 		add("nodev:"+c.Manifest[i].Name, func(v *Case) { v.Manifest[i].Dev = true; v.Opt.NoDevDeps = true })
+	}
+	for i := range c.Manifest {
+		i := i
+		// the requirement is a dev/test dependency and dev dependencies are (by default) analysed
+		add("devkept:"+c.Manifest[i].Name, func(v *Case) { v.Manifest[i].Dev = true })
 	}
 	add("depth=1", func(v *Case) { v.Opt.MaxDepth = 1 })
 	add("depth=2", func(v *Case) { v.Opt.MaxDepth = 2 })
